@@ -27,10 +27,14 @@ var NoOutFlag = &cli.BoolFlag{
 	Category: cliCategoryOutput,
 }
 
+// liveOutput is true when progressive updates are actually shown to somebody
+var liveOutput = false
+
 func BuildVTerm(forceSnapshot bool) multiterm.MultilineTerm {
 	if forceSnapshot || termstate.IsPipedOutput() {
 		return multiterm.NewBufferedTerm()
 	}
+	liveOutput = true
 	return multiterm.New()
 }
 
